@@ -109,6 +109,33 @@ func NewSA(ks KeySet) (*security.IKESAKey, error) {
 	return sa, nil
 }
 
+// NewSAScratch builds the same SA the way a caller with one scratch buffer does: every key is copied into the
+// scratch buffer, the security object is made from that window, the buffer is refilled for the next key and wiped at
+// the end. The SK_* fields hold their own copies. Every object must be keyed with the key it was given.
+func NewSAScratch(ks KeySet) (*security.IKESAKey, error) {
+	sa, err := NewSA(ks)
+	if err != nil {
+		return nil, err
+	}
+	scratch := make([]byte, 64)
+	use := func(k []byte) []byte { copy(scratch, k); return scratch[:len(k)] }
+	sa.Prf_d = sa.PrfInfo.Init(use(sa.SK_d))
+	sa.Integ_i = sa.IntegInfo.Init(use(sa.SK_ai))
+	sa.Integ_r = sa.IntegInfo.Init(use(sa.SK_ar))
+	if sa.Encr_i, err = sa.EncrInfo.NewCrypto(use(sa.SK_ei)); err != nil {
+		return nil, err
+	}
+	if sa.Encr_r, err = sa.EncrInfo.NewCrypto(use(sa.SK_er)); err != nil {
+		return nil, err
+	}
+	sa.Prf_i = sa.PrfInfo.Init(use(sa.SK_pi))
+	sa.Prf_r = sa.PrfInfo.Init(use(sa.SK_pr))
+	for i := range scratch {
+		scratch[i] = 0
+	}
+	return sa, nil
+}
+
 // DirKeys returns the sender's direction-specific keys (encryption, integrity).
 func (ks KeySet) DirKeys(senderIsInitiator bool) (ske, ska []byte) {
 	if senderIsInitiator {
